@@ -6,12 +6,12 @@ from vlib.core import hx, unhx, opt_line, Verdict
 PROP = 'C03'
 VARIANTS = ['asan']
 CLASSES = ['a', 'n', 'x', 'e', '0', '7', '8', 'f', ' ', '\t', '\n', '\\', '"', "'", '$', '{', '}', ':', '-', '#', '/', '*', '\x80', '\xff']
-ENVVALS = {'set': 'VAL', 'empty': '', 'meta': 'm"\\${q}#\n\'/*x*/ '}
-FRAMES = 6
+ENVVALS = {'set': 'VAL', 'empty': '', 'meta': 'm"\\${q}#\n\'/*x*/ ', 'mid': 'm' * 45, 'long': ('0123456789' * 30)[:293] + 'END'}
+FRAMES = 8
 PER_CASE = 40
 RULE = ('literal bodies enumerated exhaustively up to length N over %d byte-class representatives, in double-quoted, single-quoted and '
-        'unquoted form, then random longer bodies; framed as  s = <literal> [comment]  or  l = {<literal>[, <literal>]}; bodies with a '
-        '${...} run under 4 environments (unset, set, empty, meta characters); oracle = model_lex (decoder written from the statement). '
+        'unquoted form, then random longer bodies; framed as  s = <literal> [comment]  or  l = {<literal>[, <literal>]}, with LF or CRLF line ends; bodies with a '
+        '${...} run under 4 environments (unset, set, empty, meta characters), long values (45 / 296 bytes) and long defaults (20 bytes .. 20 KB) at every scratch-buffer offset; oracle = model_lex (decoder written from the statement). '
         'non-trivial: body contains an escape, substitution, quote or newline; distinct = (form, body, env, framing)' % len(CLASSES))
 
 
@@ -26,6 +26,10 @@ def frame(fr, lit):
         return 's = %s // c ${HOME}\n' % lit
     if fr == 4:
         return 'l = {%s}\n' % lit
+    if fr == 6:
+        return 's = %s\r\n' % lit                       # CRLF line ends: the CR directly follows the literal
+    if fr == 7:
+        return 'l = {%s\r\n, %s\r\n}\r\n' % (lit, lit)
     return 'l = { %s , %s }\n' % (lit, lit)
 
 
@@ -98,7 +102,7 @@ def script(spec):
                 L.append('setenv %s %s' % (hx(nm), hx(ENVVALS[envmode])))
         L.append('init 0 0 0')
         L.append('parse_buf 0 %s' % hx(frame(fr, model_lex.render(form, body))))
-        if fr < 4:
+        if fr < 4 or fr == 6:
             L.append('get 0 str %s 0' % hx('s'))
             L.append('get 0 size %s 0' % hx('s'))
         else:
@@ -129,7 +133,7 @@ def judge(spec, events, death):
         r, g, sz = evs[3 * k:3 * k + 3]
         env = {} if envmode == 'unset' else {nm: ENVVALS[envmode] for nm in model_lex.names_in(body)}
         exp = model_lex.decode(form, body, env)
-        if exp == ('reject', 'unterminated') and fr in (1, 2, 5):
+        if exp == ('reject', 'unterminated') and fr in (1, 2, 5, 7):
             exp = ('skip', 'framing-has-a-later-quote')   # the open string would end at the framing's own quote
         if exp[0] in ('skip', 'unspec'):
             v.notes['not_judged_' + exp[0]] = v.notes.get('not_judged_' + exp[0], 0) + 1
@@ -140,7 +144,7 @@ def judge(spec, events, death):
         if model_lex.nontrivial(form, body):
             v.notes.setdefault('nontrivial_literals', set()).add(zlib.crc32(repr((form, body, envmode, fr)).encode()))
         got = unhx(g['v'])
-        want_n = 1 if fr < 5 else 2
+        want_n = 2 if fr in (5, 7) else 1
         if exp[0] == 'ok':
             if r['rc'] != 0:
                 v.bad('%s:rejected-valid:%s' % (form, klass(form, body)), '%s literal %r (env %s, frame %d) must decode to %r but the parse failed rc=%s' % (form, body, envmode, fr, exp[1], r['rc']))
@@ -196,6 +200,8 @@ def lit_specs(tier, seed):
         BOUND += ['\\x%x' % d, '\\x%02X' % d, '\\x%02xf' % d]
     BOUND += ['${a:-x:y}', '${n:-:}', '${a:-x:-y}', '${n:-a:b:c}', 'p${a:-q:r}s', '${n:--}', '${n:-}', '${a:}', '${a:x}', '${:-d}', '${a:-d${n}', '${n:-"}', "${n:-'}",
               '\\8', '\\9', '\\08', '\\1234', '\\400', '\\377', '\\376', '\\3777', '\\xg', '\\x', '\\xfff', '\\e\\v\\b\\f\\a\\r', '\\E', '\\N', '\\0', '\\00', '\\000', '\\x0', '\\x00']
+    for c in 'ntrbfaevNTRBFAEVxqz.?"\'\\':
+        BOUND += ['\\' + c, 'p\\' + c + 'q', '\\' + c + '\\' + c]
     for body in BOUND:
         for form in ('dq', 'sq', 'uq'):
             fr = zlib.crc32((form + body).encode('latin-1')) % FRAMES
@@ -215,6 +221,17 @@ def lit_specs(tier, seed):
             for form in ('dq', 'sq'):
                 yield [form, body, lrng.choice(['unset', 'set', 'meta']), lrng.randrange(FRAMES)]
             yield ['uq', ''.join(c for c in body if c.isalnum() or c in './:-_')[:n] or 'w', 'unset', lrng.randrange(FRAMES)]
+    # long substituted values and long defaults: a substitution is appended to the scratch buffer in one go, at every offset within a growth step
+    for k in list(range(0, 70)) + [250, 251, 255, 256, 257, 300]:
+        for form in ('dq', 'uq'):
+            pre = 'x' * k if form == 'dq' else ''
+            for em in ('mid', 'long'):
+                yield [form, pre + '${a}' + ('y' if form == 'dq' else ''), em, lrng.randrange(FRAMES)]
+            yield [form, pre + '${n:-' + 'd' * (k + 20) + '}', 'unset', lrng.randrange(FRAMES)]
+            yield [form, pre + '${%s:-%s}' % ('N' * (k + 1), 'd' * (260 - k if k < 250 else 5)), 'unset', lrng.randrange(FRAMES)]
+    for k in (1000, 4000, 8190, 16380, 20000):
+        yield ['uq', '${n:-' + 'd' * k + '}', 'unset', 0]
+        yield ['dq', 'p${n:-' + 'e' * k + '}q', 'unset', 0]
     rng = core.seeded_rng(seed, 'c03')
     nrand = 40000 if tier == 'quick' else 600000
     weights = CLASSES + ['\\', '\\', '$', '{', '}', '0', '7', 'x']
